@@ -18,13 +18,24 @@ func coprocCase(r *rng.R, spec string, flags uint8, base uint16, n int) string {
 		cfg.IoAddrConfig = map[uint8]string{0x00: "stdout:bin"}
 		count("coproc.withports")
 	}
+	// sometimes output ports sit INSIDE the register block (a result register, the divider results, an operand): the port
+	// layer is the outermost one, so a program's store to such an address goes to the port and nowhere else, while the
+	// units' own result stores are not program stores and reach the memory
+	portTag := ""
+	if base&0xFF <= 0xE8 && (int(flags)+n)%7 == 0 {
+		lo := uint8(base)
+		cfg.IoMask = uint8(base >> 8)
+		cfg.IoAddrConfig = map[uint8]string{lo + 0x10: "stdout:bin", lo + 0x15: "stdout:bin", lo + 1: "stdout:bin"}
+		portTag = fmt.Sprintf(" p=%04x,%04x,%04x", base+0x10, base+0x15, base+1)
+		count("coproc.portsinside")
+	}
 	c, err := cfg.NewCpu()
 	if err != nil {
 		panic(err)
 	}
 	m := c.Mem
 	var ops, outs []string
-	pend("coproc %s %d %04x |", spec, flags, base)
+	pend("coproc %s %d %04x%s |", spec, flags, base, portTag)
 	for i := 0; i < n; i++ {
 		var a uint16
 		switch r.Intn(10) {
@@ -43,9 +54,24 @@ func coprocCase(r *rng.R, spec string, flags uint8, base uint16, n int) string {
 		if r.Chance(15) {
 			v = 0
 		}
-		pendAppend(fmt.Sprintf(" %04x=%02x", a, v))
-		fault := protect(func() { m.Store(a, v) })
-		ops = append(ops, fmt.Sprintf("%04x=%02x", a, v))
+		// a tenth of the stores (on the plain 64K machine, where linear address = address) reach the operand or result
+		// registers NOT through the coprocessor layer but through the linear view of the memory below it — what
+		// write_byte_long or a snapshot restore do: no unit reacts, and the next trigger computes from the bytes as they
+		// are then
+		direct := spec == "Linear64K" && r.Chance(10)
+		tag := ""
+		if direct {
+			tag = "L"
+		}
+		pendAppend(fmt.Sprintf(" %s%04x=%02x", tag, a, v))
+		fault := protect(func() {
+			if direct {
+				m.ToLargeMemory().StoreLarge(uint32(a), v)
+			} else {
+				m.Store(a, v)
+			}
+		})
+		ops = append(ops, fmt.Sprintf("%s%04x=%02x", tag, a, v))
 		var sb strings.Builder
 		if fault {
 			sb.WriteString("!")
@@ -62,7 +88,7 @@ func coprocCase(r *rng.R, spec string, flags uint8, base uint16, n int) string {
 		outs = append(outs, sb.String())
 	}
 	count(fmt.Sprintf("coproc.flags%d", flags))
-	return fmt.Sprintf("coproc %s %d %04x | %s => %s", spec, flags, base, strings.Join(ops, " "), strings.Join(outs, " "))
+	return fmt.Sprintf("coproc %s %d %04x%s | %s => %s", spec, flags, base, portTag, strings.Join(ops, " "), strings.Join(outs, " "))
 }
 
 func coprocStream(seed uint64, n int) {
